@@ -290,9 +290,33 @@ func (tb TemporalBound) String() string {
 		return "_"
 	case NowBound:
 		return "now"
+	case DurationTemporalBound:
+		return formatDurationBound(tb.Timestamp)
 	default:
 		return "?"
 	}
+}
+
+// formatDurationBound prints a duration bound in the source syntax (a number followed by
+// one of the units d, h, m, s, ms), using the largest unit that represents it exactly.
+func formatDurationBound(nanos int64) string {
+	units := []struct {
+		suffix string
+		size   int64
+	}{
+		{"d", int64(24 * time.Hour)},
+		{"h", int64(time.Hour)},
+		{"m", int64(time.Minute)},
+		{"s", int64(time.Second)},
+		{"ms", int64(time.Millisecond)},
+	}
+	for _, u := range units {
+		if nanos%u.size == 0 {
+			return fmt.Sprintf("%d%s", nanos/u.size, u.suffix)
+		}
+	}
+	// Finer than a millisecond: not expressible in the source syntax.
+	return time.Duration(nanos).String()
 }
 
 // Equals returns true if two temporal bounds are equal.
